@@ -524,6 +524,13 @@ func (v *PacketDslVisitorImpl) VisitMatchPair(ctx *gen.MatchPairContext) interfa
 // VisitRefMetaDataDeclaration handles reference metadata declarations.
 func (v *PacketDslVisitorImpl) VisitRefMetaDataDeclaration(ctx *gen.RefMetaDataDeclarationContext) interface{} {
 
+	if _, exists := v.BinModel.MetaDataMap[ctx.GetTyp().GetText()]; !exists {
+		v.BinModel.AddSyntaxError(&model.SyntaxError{
+			Line:   ctx.GetStart().GetLine(),
+			Column: ctx.GetStart().GetTokenSource().GetCharPositionInLine(),
+			Msg:    "Unknown metadata type " + ctx.GetTyp().GetText() + " for " + ctx.GetName().GetText(),
+		})
+	}
 	description := ""
 	if ctx.STRING_LITERAL() != nil {
 		description = ctx.STRING_LITERAL().GetText()
